@@ -492,7 +492,9 @@ def check_description(inp) -> list:
     order = _orders(inp)[0]
     N = len(cr.numbers)
     out = []
-    base = ph.basis_cls(order)(cr.atoms()).run()
+    cutv = inp.get("cutoff_value")
+    mk = lambda crystal_: ph.basis_cls(order)(crystal_.atoms(), cutoff=cutv).run()
+    base = mk(cr)
     A = _projector(base)
     nb = A.shape[1]
     shape = ph.tensor_shape(N, order)
@@ -513,7 +515,7 @@ def check_description(inp) -> list:
     if kind == "permute":
         p = rs.permutation(N)        # new atom k = old atom p[k]
         cr2 = Crystal(cr.name, cr.lattice, cr.positions[p], cr.numbers[p], cr.n_lp_expected, {})
-        B = _projector(ph.basis_cls(order)(cr2.atoms()).run())
+        B = _projector(mk(cr2))
 
         def tr(M):
             T = M.reshape(shape + (-1,))
@@ -524,20 +526,20 @@ def check_description(inp) -> list:
         sh = np.array(inp["shift"])
         pos = cr.positions + sh[None, :]
         cr2 = Crystal(cr.name, cr.lattice, pos, cr.numbers, cr.n_lp_expected, {})
-        B = _projector(ph.basis_cls(order)(cr2.atoms()).run())
+        B = _projector(mk(cr2))
         compare(B, f"{kind} {sh.tolist()}")
     elif kind == "unimodular":
         U = np.array(inp["U"])
         L2 = U @ cr.lattice
         pos2 = cr.positions @ np.linalg.inv(U)
         cr2 = Crystal(cr.name, L2, pos2, cr.numbers, cr.n_lp_expected, {})
-        B = _projector(ph.basis_cls(order)(cr2.atoms()).run())
+        B = _projector(mk(cr2))
         compare(B, f"unimodular basis change {U.tolist()}")
     elif kind == "rotate":
         Q = np.array(inp["Q"])
         L2 = cr.lattice @ Q.T
         cr2 = Crystal(cr.name, L2, cr.positions, cr.numbers, cr.n_lp_expected, {})
-        B = _projector(ph.basis_cls(order)(cr2.atoms()).run())
+        B = _projector(mk(cr2))
 
         def tr(M):
             T = M.reshape(shape + (-1,))
@@ -554,6 +556,12 @@ def gen_description_inputs(rng, n, max_N=(6, 4, 3)):
         cr = crystal(rng, max_N=max_N[order - 2])
         kind = ["permute", "shift", "wrap", "unimodular", "rotate"][k % 5]
         inp = {"crystal": cr, "orders": [order], "kind": kind, "seed": rng.randrange(10 ** 6)}
+        if rng.random() < 0.5:
+            dd = ph.min_image_distances(cr)
+            vals = np.unique(np.round(dd[dd > 1e-6], 6))
+            if len(vals) > 1:
+                i = rng.randrange(len(vals) - 1)
+                inp["cutoff_value"] = float((vals[i] + vals[i + 1]) / 2)
         if kind == "shift":
             base = rng.choice([0.5, 0.25, 0.0, 1 / 3])
             inp["shift"] = [base - rng.choice([0, 1e-9, -1e-9, 1e-7]) - float(cr.positions[0][a]) * rng.choice([0, 1])
@@ -744,7 +752,9 @@ def check_history(inp) -> list:
     rs = np.random.default_rng(inp.get("data_seed", 0))
     S = inp["n_snap"]
     datasets = [(rs.normal(scale=0.05, size=(S, N, 3)), rs.normal(size=(S, N, 3))) for _ in range(2)]
-    s = Symfc(cr.atoms())
+    cutoff = inp.get("cutoff")
+    cutd = None if cutoff is None else {int(k): v for k, v in cutoff.items()}
+    s = Symfc(cr.atoms(), cutoff=None if cutd is None else dict(cutd))
     cur = None
     fresh_cache = {}
 
@@ -752,8 +762,11 @@ def check_history(inp) -> list:
         key = (tuple(orders), ds, compact)
         if key not in fresh_cache:
             d, f = datasets[ds]
-            t = Symfc(cr.atoms(), displacements=d.copy(), forces=f.copy())
-            t.compute_basis_set(orders=list(orders))
+            t = Symfc(cr.atoms(), displacements=d.copy(), forces=f.copy(), cutoff=None if cutd is None else dict(cutd))
+            # reference basis sets are built one order at a time, directly from the basis-set classes, so that the
+            # reference does not depend on how compute_basis_set groups the orders
+            t.basis_set = {o: ph.basis_cls(o)(cr.atoms(), cutoff=None if cutd is None else cutd.get(o)).run()
+                           for o in orders}
             t.solve(orders=list(orders), is_compact_fc=compact)
             fresh_cache[key] = {o: t.force_constants[o].copy() for o in orders}
         return fresh_cache[key]
@@ -770,7 +783,7 @@ def check_history(inp) -> list:
             elif kind == "basis":
                 s.compute_basis_set(orders=op[1])
             elif kind == "handover":
-                t = Symfc(cr.atoms())
+                t = Symfc(cr.atoms(), cutoff=None if cutd is None else dict(cutd))
                 t.basis_set = s.basis_set
                 if cur is not None:
                     t.displacements, t.forces = datasets[cur]
@@ -831,7 +844,119 @@ def gen_history_inputs(rng, n):
                 ops.append(("solve", od, rng.random() < 0.5))
             else:
                 ops.append(("solve", rng.choice(combos[:3] if len(cr.numbers) > 3 else combos), rng.random() < 0.5))
-        yield {"crystal": cr, "ops": ops, "n_snap": 60, "data_seed": rng.randrange(10 ** 6)}
+        inp = {"crystal": cr, "ops": ops, "n_snap": 60, "data_seed": rng.randrange(10 ** 6)}
+        if rng.random() < 0.5:
+            # a cutoff for SOME orders only (beyond every distance, so the admissible space is unchanged but the
+            # cutoff code path is taken for that order and must not leak into the others)
+            # a genuine cutoff (between two neighbour shells) for SOME orders only: it must not leak into the others
+            from . import physics as _ph
+            dd = _ph.min_image_distances(cr)
+            vals = np.unique(np.round(dd[dd > 1e-6], 6))
+            if len(vals) >= 2:
+                i = rng.randrange(max(1, len(vals) // 2), len(vals))
+                cv = float((vals[i - 1] + vals[i]) / 2)
+                inp["cutoff"] = {str(o): cv for o in rng.sample([2, 3, 4], rng.randint(1, 2))}
+        yield inp
+
+
+def check_ortho_after_fit(inp) -> list:
+    """C09 / C12: orthonormality of basis set, compression matrix and their product must also hold AFTER the basis
+    sets have been used by a solver (solving must not modify a basis set)"""
+    from symfc import Symfc
+    cr = _cr(inp)
+    N = len(cr.numbers)
+    orders = _orders(inp)
+    out = []
+    s = Symfc(cr.atoms())
+    s.compute_basis_set(orders=orders)
+    if any(s.basis_set[o].basis_set.shape[1] == 0 for o in orders):
+        return []
+
+    def dev(tag):
+        for o in orders:
+            b = s.basis_set[o]
+            B = b.basis_set
+            nb = B.shape[1]
+            cm = b.compression_matrix
+            G = B.T @ ((cm.T @ cm).toarray()) @ B
+            e = float(np.abs(G - np.eye(nb)).max())
+            if e > 1e-8:
+                out.append(f"order {o}: expanded basis not orthonormal {tag} (max dev {e:.2e})")
+            cc = b.compact_compression_matrix
+            n_lp = b.translation_permutations.shape[0]
+            e2 = float(np.abs((cc.T @ cc).toarray() * n_lp - (cm.T @ cm).toarray()).max())
+            if e2 > 1e-8:
+                out.append(f"order {o}: compact and full compression matrices disagree {tag} ({e2:.2e})")
+    dev("before any fit")
+    if out:
+        return out
+    rs = np.random.default_rng(inp.get("data_seed", 0))
+    nb = sum(s.basis_set[o].basis_set.shape[1] for o in orders)
+    S = int(np.ceil(3.0 * nb / (3 * N))) + 4
+    s.displacements = rs.normal(scale=0.05, size=(S, N, 3))
+    s.forces = rs.normal(size=(S, N, 3))
+    try:
+        s.solve(orders=orders, is_compact_fc=bool(inp.get("compact", False)))
+    except np.linalg.LinAlgError:
+        return []
+    dev(f"after solve{tuple(orders)}")
+    return out
+
+
+def check_api_invalid(inp) -> list:
+    """C16 stated directly on the real object: after a valid solve, every invalid request must raise and leave
+    force_constants untouched; valid requests write exactly the requested orders with the documented shapes"""
+    from symfc import Symfc
+    cr = _cr(inp)
+    N = len(cr.numbers)
+    out = []
+    rs = np.random.default_rng(inp.get("data_seed", 0))
+    S = inp["n_snap"]
+    d = rs.normal(scale=0.05, size=(S, N, 3))
+    f = rs.normal(size=(S, N, 3))
+    s = Symfc(cr.atoms(), displacements=d, forces=f)
+    try:
+        s.run(orders=[2])
+    except np.linalg.LinAlgError:
+        return []
+    ref = {k: v.copy() for k, v in s.force_constants.items()}
+    ids = {k: id(v) for k, v in s.force_constants.items()}
+    supported = [(2,), (3,), (4,), (2, 3), (3, 4), (2, 3, 4)]
+    for spec in inp["specs"]:
+        mo, od = spec
+        if mo is not None:
+            valid = mo in (2, 3, 4)
+        elif od is None:
+            valid = False
+        else:
+            valid = tuple(sorted(od)) in supported
+        if valid:
+            continue
+        for call in ("solve", "run", "compute_basis_set"):
+            try:
+                getattr(s, call)(max_order=mo, orders=od)
+                out.append(f"{call}(max_order={mo}, orders={od}) was accepted")
+            except Exception:
+                pass
+            if set(s.force_constants) != set(ref) or any(id(s.force_constants[k]) != ids[k] or
+                                                          not np.array_equal(s.force_constants[k], ref[k]) for k in ref):
+                out.append(f"{call}(max_order={mo}, orders={od}) changed the stored force constants")
+                return out
+    # shape mismatches
+    for bad in inp.get("bad_shapes", []):
+        t = Symfc(cr.atoms(), displacements=d, forces=f)
+        t.compute_basis_set(orders=[2])
+        t.solve(orders=[2])
+        keep = {k: v.copy() for k, v in t.force_constants.items()}
+        t.forces = rs.normal(size=tuple(bad))
+        try:
+            t.solve(orders=[2])
+            out.append(f"solve accepted forces of shape {bad} for displacements {d.shape}")
+        except Exception:
+            pass
+        if any(not np.array_equal(t.force_constants[k], keep[k]) for k in keep):
+            out.append(f"a rejected solve (forces shape {bad}) altered stored force constants")
+    return out
 
 
 CHECKS = {
@@ -847,6 +972,8 @@ CHECKS = {
     "sg_perms": check_sg_perms,
     "eig": check_eig,
     "history": check_history,
+    "ortho_after_fit": check_ortho_after_fit,
+    "api_invalid": check_api_invalid,
 }
 
 
@@ -865,6 +992,13 @@ def run_oracle(name, inputs, which=None, known=None, nontrivial=lambda inp: True
             except AssertionError as e:
                 res.count("harness_assertion")
                 fails = []
+            except np.linalg.LinAlgError:
+                res.count("singular_fit_skipped")
+                fails = []
+            except Exception as e:  # noqa
+                # the library raised on an input of the property's domain (the unchanged tree does not)
+                import traceback as _tb
+                fails = [{"msg": f"library raised {type(e).__name__}: {str(e)[:120]}", "trace": _tb.format_exc()[-1200:]}]
             res.case(jinp, nontrivial(inp), sample={"crystal": desc, **{k: jsonable(v) for k, v in inp.items()
                                                                          if k not in ("crystal", "matrix")}})
             if desc:
